@@ -426,6 +426,10 @@ pub mod atomic {
     sim_atomic_int!(AtomicU32, AtomicU32, u32);
     sim_atomic_int!(AtomicI32, AtomicI32, i32);
     sim_atomic_int!(AtomicU8, AtomicU8, u8);
+    sim_atomic_int!(AtomicI8, AtomicI8, i8);
+    sim_atomic_int!(AtomicU16, AtomicU16, u16);
+    sim_atomic_int!(AtomicI16, AtomicI16, i16);
+    pub use std::sync::atomic::{compiler_fence, fence, AtomicPtr};
 
     #[derive(Default)]
     pub struct AtomicBool {
@@ -482,6 +486,407 @@ pub mod atomic {
                 return Err(self.inner.load(f));
             }
             self.inner.compare_exchange(cur, new, s, f)
+        }
+    }
+}
+
+// ---------------------------------------------------------------------------------------------
+// RwLock, Barrier, Once, OnceLock, mpsc: primitives rs-store does not use today; a changed tree
+// may (the shadow build rewrites every `std::sync::` path to this module).
+
+pub struct RwLock<T: ?Sized> {
+    /// simulated thread that holds the lock for writing, or took it last for reading
+    /// (diagnostics for blocked threads; usize::MAX = nobody)
+    owner: std::sync::atomic::AtomicUsize,
+    inner: std::sync::RwLock<T>,
+}
+
+pub struct RwLockReadGuard<'a, T: ?Sized + 'a> {
+    guard: Option<std::sync::RwLockReadGuard<'a, T>>,
+    lock: &'a RwLock<T>,
+}
+
+pub struct RwLockWriteGuard<'a, T: ?Sized + 'a> {
+    guard: Option<std::sync::RwLockWriteGuard<'a, T>>,
+    lock: &'a RwLock<T>,
+}
+
+impl<T> RwLock<T> {
+    pub const fn new(t: T) -> RwLock<T> {
+        RwLock { owner: std::sync::atomic::AtomicUsize::new(usize::MAX), inner: std::sync::RwLock::new(t) }
+    }
+    pub fn into_inner(self) -> LockResult<T> {
+        self.inner.into_inner()
+    }
+}
+
+impl<T: ?Sized> RwLock<T> {
+    fn key(&self) -> Obj {
+        Obj::Mutex(&self.inner as *const _ as *const u8 as usize)
+    }
+
+    fn rd<'a>(&'a self, g: std::sync::RwLockReadGuard<'a, T>) -> RwLockReadGuard<'a, T> {
+        self.owner.store(rt::current_tid(), std::sync::atomic::Ordering::Relaxed);
+        RwLockReadGuard { guard: Some(g), lock: self }
+    }
+
+    fn wr<'a>(&'a self, g: std::sync::RwLockWriteGuard<'a, T>) -> RwLockWriteGuard<'a, T> {
+        self.owner.store(rt::current_tid(), std::sync::atomic::Ordering::Relaxed);
+        RwLockWriteGuard { guard: Some(g), lock: self }
+    }
+
+    fn note(&self) {
+        let o = self.owner.load(std::sync::atomic::Ordering::Relaxed);
+        rt::note_holder(if o == usize::MAX { None } else { Some(o) });
+    }
+
+    pub fn read(&self) -> LockResult<RwLockReadGuard<'_, T>> {
+        if !rt::in_sim() {
+            return match self.inner.read() {
+                Ok(g) => Ok(self.rd(g)),
+                Err(p) => Err(PoisonError::new(self.rd(p.into_inner()))),
+            };
+        }
+        rt::point(Op::MutexLock);
+        loop {
+            match self.inner.try_read() {
+                Ok(g) => return Ok(self.rd(g)),
+                Err(TryLockError::Poisoned(p)) => return Err(PoisonError::new(self.rd(p.into_inner()))),
+                Err(TryLockError::WouldBlock) => {
+                    self.note();
+                    rt::block(self.key(), None);
+                }
+            }
+        }
+    }
+
+    pub fn write(&self) -> LockResult<RwLockWriteGuard<'_, T>> {
+        if !rt::in_sim() {
+            return match self.inner.write() {
+                Ok(g) => Ok(self.wr(g)),
+                Err(p) => Err(PoisonError::new(self.wr(p.into_inner()))),
+            };
+        }
+        rt::point(Op::MutexLock);
+        loop {
+            match self.inner.try_write() {
+                Ok(g) => return Ok(self.wr(g)),
+                Err(TryLockError::Poisoned(p)) => return Err(PoisonError::new(self.wr(p.into_inner()))),
+                Err(TryLockError::WouldBlock) => {
+                    self.note();
+                    rt::block(self.key(), None);
+                }
+            }
+        }
+    }
+
+    pub fn try_read(&self) -> TryLockResult<RwLockReadGuard<'_, T>> {
+        rt::point(Op::MutexLock);
+        match self.inner.try_read() {
+            Ok(g) => Ok(self.rd(g)),
+            Err(TryLockError::Poisoned(p)) => Err(TryLockError::Poisoned(PoisonError::new(self.rd(p.into_inner())))),
+            Err(TryLockError::WouldBlock) => Err(TryLockError::WouldBlock),
+        }
+    }
+
+    pub fn try_write(&self) -> TryLockResult<RwLockWriteGuard<'_, T>> {
+        rt::point(Op::MutexLock);
+        match self.inner.try_write() {
+            Ok(g) => Ok(self.wr(g)),
+            Err(TryLockError::Poisoned(p)) => Err(TryLockError::Poisoned(PoisonError::new(self.wr(p.into_inner())))),
+            Err(TryLockError::WouldBlock) => Err(TryLockError::WouldBlock),
+        }
+    }
+
+    pub fn is_poisoned(&self) -> bool {
+        self.inner.is_poisoned()
+    }
+
+    pub fn clear_poison(&self) {
+        self.inner.clear_poison()
+    }
+
+    pub fn get_mut(&mut self) -> LockResult<&mut T> {
+        self.inner.get_mut()
+    }
+}
+
+impl<T: Default> Default for RwLock<T> {
+    fn default() -> Self {
+        RwLock::new(T::default())
+    }
+}
+
+impl<T> From<T> for RwLock<T> {
+    fn from(t: T) -> Self {
+        RwLock::new(t)
+    }
+}
+
+impl<T: ?Sized + fmt::Debug> fmt::Debug for RwLock<T> {
+    fn fmt(&self, f: &mut fmt::Formatter<'_>) -> fmt::Result {
+        f.write_str("RwLock { .. }")
+    }
+}
+
+impl<T: ?Sized> Deref for RwLockReadGuard<'_, T> {
+    type Target = T;
+    fn deref(&self) -> &T {
+        self.guard.as_ref().unwrap()
+    }
+}
+
+impl<T: ?Sized> Deref for RwLockWriteGuard<'_, T> {
+    type Target = T;
+    fn deref(&self) -> &T {
+        self.guard.as_ref().unwrap()
+    }
+}
+
+impl<T: ?Sized> DerefMut for RwLockWriteGuard<'_, T> {
+    fn deref_mut(&mut self) -> &mut T {
+        self.guard.as_mut().unwrap()
+    }
+}
+
+impl<T: ?Sized> Drop for RwLockReadGuard<'_, T> {
+    fn drop(&mut self) {
+        if let Some(g) = self.guard.take() {
+            drop(g);
+            rt::wake_all(self.lock.key());
+        }
+    }
+}
+
+impl<T: ?Sized> Drop for RwLockWriteGuard<'_, T> {
+    fn drop(&mut self) {
+        if let Some(g) = self.guard.take() {
+            drop(g);
+            rt::wake_all(self.lock.key());
+        }
+    }
+}
+
+impl<T: ?Sized + fmt::Debug> fmt::Debug for RwLockReadGuard<'_, T> {
+    fn fmt(&self, f: &mut fmt::Formatter<'_>) -> fmt::Result {
+        fmt::Debug::fmt(&**self, f)
+    }
+}
+
+impl<T: ?Sized + fmt::Debug> fmt::Debug for RwLockWriteGuard<'_, T> {
+    fn fmt(&self, f: &mut fmt::Formatter<'_>) -> fmt::Result {
+        fmt::Debug::fmt(&**self, f)
+    }
+}
+
+/// std::sync::Barrier on top of the simulated Mutex and Condvar
+pub struct Barrier {
+    lock: Mutex<(usize, usize)>,
+    cvar: Condvar,
+    n: usize,
+}
+
+pub struct BarrierWaitResult(bool);
+
+impl BarrierWaitResult {
+    pub fn is_leader(&self) -> bool {
+        self.0
+    }
+}
+
+impl Barrier {
+    pub fn new(n: usize) -> Barrier {
+        Barrier { lock: Mutex::new((0, 0)), cvar: Condvar::new(), n }
+    }
+    pub fn wait(&self) -> BarrierWaitResult {
+        let mut g = self.lock.lock().unwrap();
+        let gen = g.1;
+        g.0 += 1;
+        if g.0 < self.n {
+            while gen == g.1 {
+                g = self.cvar.wait(g).unwrap();
+            }
+            BarrierWaitResult(false)
+        } else {
+            g.0 = 0;
+            g.1 = g.1.wrapping_add(1);
+            self.cvar.notify_all();
+            BarrierWaitResult(true)
+        }
+    }
+}
+
+impl fmt::Debug for Barrier {
+    fn fmt(&self, f: &mut fmt::Formatter<'_>) -> fmt::Result {
+        f.write_str("Barrier { .. }")
+    }
+}
+
+/// std::sync::Once: callers that lose the race wait on a simulated mutex, not in the OS
+pub struct Once {
+    done: std::sync::atomic::AtomicBool,
+    lock: Mutex<()>,
+}
+
+impl Once {
+    pub const fn new() -> Once {
+        Once { done: std::sync::atomic::AtomicBool::new(false), lock: Mutex::new(()) }
+    }
+    pub fn call_once<F: FnOnce()>(&self, f: F) {
+        if self.done.load(std::sync::atomic::Ordering::Acquire) {
+            return;
+        }
+        let _g = self.lock.lock().unwrap_or_else(|p| p.into_inner());
+        if !self.done.load(std::sync::atomic::Ordering::Acquire) {
+            f();
+            self.done.store(true, std::sync::atomic::Ordering::Release);
+        }
+    }
+    pub fn is_completed(&self) -> bool {
+        self.done.load(std::sync::atomic::Ordering::Acquire)
+    }
+}
+
+impl Default for Once {
+    fn default() -> Self {
+        Once::new()
+    }
+}
+
+/// std::sync::OnceLock: initialisation is serialised by a simulated mutex
+pub struct OnceLock<T> {
+    cell: std::sync::OnceLock<T>,
+    lock: Mutex<()>,
+}
+
+impl<T> OnceLock<T> {
+    pub const fn new() -> OnceLock<T> {
+        OnceLock { cell: std::sync::OnceLock::new(), lock: Mutex::new(()) }
+    }
+    pub fn get(&self) -> Option<&T> {
+        self.cell.get()
+    }
+    pub fn get_mut(&mut self) -> Option<&mut T> {
+        self.cell.get_mut()
+    }
+    pub fn set(&self, value: T) -> Result<(), T> {
+        let _g = self.lock.lock().unwrap_or_else(|p| p.into_inner());
+        self.cell.set(value)
+    }
+    pub fn get_or_init<F: FnOnce() -> T>(&self, f: F) -> &T {
+        if let Some(v) = self.cell.get() {
+            return v;
+        }
+        let _g = self.lock.lock().unwrap_or_else(|p| p.into_inner());
+        self.cell.get_or_init(f)
+    }
+    pub fn into_inner(self) -> Option<T> {
+        self.cell.into_inner()
+    }
+    pub fn take(&mut self) -> Option<T> {
+        self.cell.take()
+    }
+}
+
+impl<T> Default for OnceLock<T> {
+    fn default() -> Self {
+        OnceLock::new()
+    }
+}
+
+impl<T: fmt::Debug> fmt::Debug for OnceLock<T> {
+    fn fmt(&self, f: &mut fmt::Formatter<'_>) -> fmt::Result {
+        fmt::Debug::fmt(&self.cell, f)
+    }
+}
+
+/// std::sync::mpsc on top of the simulated channel
+pub mod mpsc {
+    use crate::channel as ch;
+    pub use crate::channel::{RecvError, RecvTimeoutError, SendError, TryRecvError, TrySendError};
+    use std::time::Duration;
+
+    pub struct Sender<T>(ch::Sender<T>);
+    pub struct SyncSender<T>(ch::Sender<T>);
+    pub struct Receiver<T>(ch::Receiver<T>);
+
+    pub fn channel<T>() -> (Sender<T>, Receiver<T>) {
+        let (s, r) = ch::unbounded();
+        (Sender(s), Receiver(r))
+    }
+
+    pub fn sync_channel<T>(bound: usize) -> (SyncSender<T>, Receiver<T>) {
+        let (s, r) = ch::bounded(bound);
+        (SyncSender(s), Receiver(r))
+    }
+
+    impl<T> Sender<T> {
+        pub fn send(&self, t: T) -> Result<(), SendError<T>> {
+            self.0.send(t)
+        }
+    }
+    impl<T> Clone for Sender<T> {
+        fn clone(&self) -> Self {
+            Sender(self.0.clone())
+        }
+    }
+    impl<T> SyncSender<T> {
+        pub fn send(&self, t: T) -> Result<(), SendError<T>> {
+            self.0.send(t)
+        }
+        pub fn try_send(&self, t: T) -> Result<(), TrySendError<T>> {
+            self.0.try_send(t)
+        }
+    }
+    impl<T> Clone for SyncSender<T> {
+        fn clone(&self) -> Self {
+            SyncSender(self.0.clone())
+        }
+    }
+    impl<T> Receiver<T> {
+        pub fn recv(&self) -> Result<T, RecvError> {
+            self.0.recv()
+        }
+        pub fn try_recv(&self) -> Result<T, TryRecvError> {
+            self.0.try_recv()
+        }
+        pub fn recv_timeout(&self, d: Duration) -> Result<T, RecvTimeoutError> {
+            self.0.recv_timeout(d)
+        }
+        pub fn iter(&self) -> ch::Iter<'_, T> {
+            self.0.iter()
+        }
+        pub fn try_iter(&self) -> ch::TryIter<'_, T> {
+            self.0.try_iter()
+        }
+    }
+    impl<T> IntoIterator for Receiver<T> {
+        type Item = T;
+        type IntoIter = IntoIter<T>;
+        fn into_iter(self) -> IntoIter<T> {
+            IntoIter(self)
+        }
+    }
+    pub struct IntoIter<T>(Receiver<T>);
+    impl<T> Iterator for IntoIter<T> {
+        type Item = T;
+        fn next(&mut self) -> Option<T> {
+            self.0.recv().ok()
+        }
+    }
+    impl<T> std::fmt::Debug for Sender<T> {
+        fn fmt(&self, f: &mut std::fmt::Formatter<'_>) -> std::fmt::Result {
+            f.write_str("Sender { .. }")
+        }
+    }
+    impl<T> std::fmt::Debug for SyncSender<T> {
+        fn fmt(&self, f: &mut std::fmt::Formatter<'_>) -> std::fmt::Result {
+            f.write_str("SyncSender { .. }")
+        }
+    }
+    impl<T> std::fmt::Debug for Receiver<T> {
+        fn fmt(&self, f: &mut std::fmt::Formatter<'_>) -> std::fmt::Result {
+            f.write_str("Receiver { .. }")
         }
     }
 }
